@@ -170,6 +170,7 @@ def reset_stream(ck):
     reset = next(s_ for s_ in d.sigs if s_.comp == '' and s_.name == 'reset')
     ins = [(g, v) for (g, v) in rtlgen.gen_inputs(rng, d, 1)[0] if g != reset.idx]
     post = rtlgen.gen_inputs(rng, d, 3)
+    post2 = rtlgen.gen_inputs(rng, d, 4)        # driven with sim_tick() alone: poke inputs, tick, read (no explicit evaluation)
     for rah in (True, False):
       act, inact = (1, 0) if rah else (0, 1)
       ref = rtlgen.RefSim(d)
@@ -178,6 +179,9 @@ def reset_stream(ck):
       ref.eval_comb()
       want = [list(ref.vals)]
       for cyc in post:
+        cyc = [(g, v) for (g, v) in cyc if g != reset.idx] + [(reset.idx, inact)]
+        a, b = ref.cycle(cyc); want.append(b)
+      for cyc in post2:
         cyc = [(g, v) for (g, v) in cyc if g != reset.idx] + [(reset.idx, inact)]
         a, b = ref.cycle(cyc); want.append(b)
       for flow in ['default', 'simple', 'heutopo', 'mamba', 'unroll']:
@@ -190,13 +194,17 @@ def reset_stream(ck):
           for cyc in post:
             rs.set_inputs([(g, v) for (g, v) in cyc if g != reset.idx])
             rs.top.sim_eval_combinational(); rs.top.sim_tick(); got.append(rs.read_all())
+          for cyc in post2:
+            # a pure RTL design: sim_tick() itself evaluates the combinational logic on the new inputs before the edge
+            rs.set_inputs([(g, v) for (g, v) in cyc if g != reset.idx])
+            rs.top.sim_tick(); got.append(rs.read_all())
         except Exception as e:
           if len(ck.rejected) < 50: ck.rejected.append({'source': src, 'error': f'reset stream: {type(e).__name__}: {e}'})
           break
         if got != want:
           k = next(i for i, (x, y) in enumerate(zip(got, want)) if x != y)
           ck.violation('reset-polarity-or-sequence-differs', {'flow': flow, 'reset_active_high': rah},
-                       {'source': src, 'flow': flow, 'reset_active_high': rah, 'inputs': [ins] + post, 'signals': [s_.path for s_ in d.sigs]},
+                       {'source': src, 'flow': flow, 'reset_active_high': rah, 'inputs': [ins] + post, 'tick_only_inputs': post2, 'signals': [s_.path for s_ in d.sigs]},
                        {'step': k, 'impl': got[k], 'ref': want[k], 'signals': [s_.path for s_ in d.sigs],
                         'oracle': 'after sim_reset() (reset asserted with the requested polarity for three cycles, then released) every pass group must be in the state of the dataflow reference'})
   ck.extra_cov['reset_designs'] = made
